@@ -2,19 +2,24 @@
 Model of the phase-representation machinery of thermosteam streams
 (`Stream.phases` / `MultiStream.phases` / `MultiStream.phase` setters, `reduce_phases`, `as_stream`,
 the `vle` / `lle` / `sle` accessors' phase-set extension, `MultiStream.__getitem__` phase views,
-`Stream.get_data` / `set_data`, and the indexer conversions `ChemicalIndexer.to_material_indexer`,
-`MaterialIndexer.to_material_indexer`, `MaterialIndexer.to_chemical_indexer`, `get_phase`).
+`Stream.get_data` / `set_data`, the indexer conversions `ChemicalIndexer.to_material_indexer`,
+`MaterialIndexer.to_material_indexer`, `MaterialIndexer.to_chemical_indexer`, `get_phase`)
+and of the operations that re-seat or grow the flow data of a stream that has phase views:
+`unlink`, `link_with`, `copy_like`, `mix_from` (with `MaterialIndexer._expand_phases`), `_reset_thermo`
+to an equal-order package, `proxy`.
 Core Lean only (no Mathlib): this file is compiled into the line-protocol driver.
 
-Store-based (DESIGN §3.2): row objects (the `SparseVector` of one phase), thermal-condition objects and
-phase-view `Stream` objects are ids into a store; Python `is` is equality of ids, `x.copy_like(y)` writes
-the store at the id of `x`, a constructor allocates a fresh id.  A row is its dense image `Nat → Rat`
-(chemical index ↦ flow); only indices `< n` are looked at by the emptiness test (`SparseVector.any`).
+Store-based (DESIGN §3.2).  Objects with identity are ids into stores:
+  row objects (the `SparseVector` of one phase), thermal-condition objects, indexer objects
+  (`stream._imol`: its phase labels and its row objects), `_streams` dict objects, phase-view `Stream`
+  objects, and the streams of the universe.
+Python `is` is equality of ids, `x.copy_like(y)` writes the store at the id of `x`, a constructor allocates
+a fresh id.  A row is its dense image `Nat → Rat` (chemical index ↦ flow); only indices `< n` are looked at
+by the emptiness test (`SparseVector.any`).  Two indexers that share their `SparseArray` (`link_with`)
+hold the same row ids; growing the phases of such an indexer in place is outside the model (`outOfModel`).
 
-The model describes the code WITH the patches of `fixes_proposed/C12-1 … C12-4` applied
-(phase views rebound by the `MultiStream.phases` setter; `set_data` empties first; the `Stream.phases`
-setter converts before switching class and accepts an empty stream; `Stream.sle` keeps `'S'`).
-`World.mphasesLegacy` mirrors the unpatched `MultiStream.phases` setter for the counterexample in Props/C12.
+`World.toMultiLegacy` / `World.linkLegacy` mirror the setters before commits bab44aa / d9738d9 for the
+counterexamples in Props/C12.
 -/
 namespace ThermoVerif.Phases
 
@@ -33,11 +38,16 @@ def Ph.toString : Ph → String
 def Ph.flip : Ph → Option Ph
   | .L => some .l | .l => some .L | .S => some .s | .s => some .S | .g => none
 
+/-- lower-case letter of a label (`PhaseIndexer._compatibility`) -/
+def Ph.lower : Ph → Ph
+  | .L => .l | .l => .l | .S => .s | .s => .s | .g => .g
+
 /-- `phase_tuple`: sorted, duplicates removed. -/
 def phaseTuple (ps : List Ph) : List Ph := Ph.all.filter (fun p => ps.contains p)
 
 inductive Err where
   | undefinedPhase | runtimeError | indexError | attributeError | undefinedChemicalAlias | valueError
+  | outOfModel
   deriving DecidableEq, Repr, Inhabited
 
 def Err.toString : Err → String
@@ -47,6 +57,7 @@ def Err.toString : Err → String
   | .attributeError => "AttributeError"
   | .undefinedChemicalAlias => "UndefinedChemicalAlias"
   | .valueError => "ValueError"
+  | .outOfModel => "OutOfModel"
 
 /-- A phase view: the `Stream` object built by `MultiStream.__getitem__`. -/
 structure View where
@@ -62,12 +73,13 @@ structure Snap where
   T : Rat
   P : Rat
 
-/-- The stream under test. -/
+/-- A stream of the universe. -/
 structure Strm where
   multi : Bool                 -- `type(stream) is MultiStream`
-  pr : List (Ph × Nat)         -- (phase label, row id), in `_phases` order; one entry for a `Stream`
-  tc : Nat                     -- id of `_thermal_condition`
-  cache : List (Ph × Nat)      -- `_streams`: key ↦ view id
+  imol : Nat                   -- id of `stream._imol`
+  tc : Nat                     -- id of `stream._thermal_condition`
+  cache : Nat                  -- id of the dict `stream._streams`
+  thermo : Nat                 -- which (equal-order) property package `stream._thermo` is
   deriving Inhabited
 
 structure World where
@@ -79,16 +91,25 @@ structure World where
   nTc : Nat
   view : Nat → View            -- view store
   nView : Nat
-  s : Strm
+  ipr : Nat → List (Ph × Nat)  -- indexer store: (phase label, row id) in `_phases` order; one entry for a `Stream`
+  nImol : Nat
+  cache : Nat → List (Ph × Nat) -- `_streams` dict store: key ↦ view id
+  nCache : Nat
+  str : Nat → Strm             -- the streams, by index
+  nStr : Nat
   snaps : List Snap
 
 def World.init : World :=
-  { n := 3, row := fun _ _ => 0, nRow := 1, T := fun _ => 0, P := fun _ => 0, nTc := 1,
-    view := fun _ => default, nView := 0,
-    s := { multi := false, pr := [(.l, 0)], tc := 0, cache := [] }, snaps := [] }
+  { n := 3, row := fun _ _ => 0, nRow := 0, T := fun _ => 0, P := fun _ => 0, nTc := 0,
+    view := fun _ => default, nView := 0, ipr := fun _ => [], nImol := 0, cache := fun _ => [], nCache := 0,
+    str := fun _ => default, nStr := 0, snaps := [] }
 
-def Strm.phases (s : Strm) : List Ph := s.pr.map (·.1)
-def Strm.rows (s : Strm) : List Nat := s.pr.map (·.2)
+/-! ### reading -/
+
+def World.pr (w : World) (k : Nat) : List (Ph × Nat) := w.ipr (w.str k).imol
+def World.phases (w : World) (k : Nat) : List Ph := (w.pr k).map (·.1)
+def World.rows (w : World) (k : Nat) : List Nat := (w.pr k).map (·.2)
+def World.cacheOf (w : World) (k : Nat) : List (Ph × Nat) := w.cache (w.str k).cache
 
 /-- `SparseVector.any()` negated, on the first `n` entries. -/
 def isEmptyVal (n : Nat) (v : Nat → Rat) : Bool := (List.range n).all (fun i => decide (v i = 0))
@@ -104,13 +125,24 @@ def lookupRow (pr : List (Ph × Nat)) (p : Ph) : Option Nat :=
     | some q => (pr.find? (fun x => x.1 == q)).map (·.2)
     | none => none
 
-/-- Where `to_material_indexer` puts the material of phase `p`: the exact label if the target has it,
+/-- Where the material of phase `p` goes in a phase tuple: the exact label if the target has it,
 otherwise the other-case label (and nothing else). -/
 def dest (target : List Ph) (p : Ph) : Option Ph :=
   if target.contains p then some p
   else match p.flip with
     | some q => if target.contains q then some q else none
     | none => none
+
+/-! ### store updates -/
+
+def World.setStr (w : World) (k : Nat) (s : Strm) : World :=
+  { w with str := fun j => if j = k then s else w.str j }
+
+def World.setIpr (w : World) (i : Nat) (pr : List (Ph × Nat)) : World :=
+  { w with ipr := fun j => if j = i then pr else w.ipr j }
+
+def World.setCache (w : World) (c : Nat) (l : List (Ph × Nat)) : World :=
+  { w with cache := fun j => if j = c then l else w.cache j }
 
 /-- Allocate fresh row objects holding `vals`. -/
 def World.allocRows (w : World) (vals : List (Nat → Rat)) : World × List Nat :=
@@ -119,128 +151,178 @@ def World.allocRows (w : World) (vals : List (Nat → Rat)) : World × List Nat 
             nRow := w.nRow + vals.length },
    List.range' w.nRow vals.length)
 
-/-- (label, values, non-empty?) of every row of the current indexer. -/
-def World.sources (w : World) : List (Ph × (Nat → Rat) × Bool) :=
-  w.s.pr.map (fun x => (x.1, w.row x.2, !w.isEmptyRow x.2))
+/-- a new indexer object over the given rows -/
+def World.allocImol (w : World) (pr : List (Ph × Nat)) : World × Nat :=
+  ({ w with ipr := fun j => if j = w.nImol then pr else w.ipr j, nImol := w.nImol + 1 }, w.nImol)
 
-/-- The values of the rows of the rebuilt indexer: row `q` receives every non-empty source row whose
+/-- a new thermal-condition object -/
+def World.allocTc (w : World) (T P : Rat) : World × Nat :=
+  ({ w with T := fun t => if t = w.nTc then T else w.T t,
+            P := fun t => if t = w.nTc then P else w.P t, nTc := w.nTc + 1 }, w.nTc)
+
+/-- a new empty `_streams` dict -/
+def World.allocCache (w : World) : World × Nat :=
+  ({ w with cache := fun j => if j = w.nCache then [] else w.cache j, nCache := w.nCache + 1 }, w.nCache)
+
+/-- Re-seat the cached phase views of stream `k` on its current rows (`view._imol = self._imol.get_phase(key)`)
+and, when `withTc`, on its current thermal condition.  Keys without a row are dropped (`MultiStream.phases`
+setter); the callers that would raise instead check `World.keysResolve` first. -/
+def World.rebind (w : World) (k : Nat) (withTc : Bool) : World :=
+  let s := w.str k
+  let pr := w.pr k
+  let cached := (w.cacheOf k).map (·.2)
+  { w with
+    view := fun v => if cached.contains v then
+                       match lookupRow pr (w.view v).phase with
+                       | some r => { row := r, tc := if withTc then s.tc else (w.view v).tc, phase := (w.view v).phase }
+                       | none => w.view v
+                     else w.view v,
+    cache := fun c => if c = s.cache then (w.cache c).filter (fun e => (lookupRow pr e.1).isSome) else w.cache c }
+
+/-- every key of the `_streams` dict of stream `k` has a row in its indexer -/
+def World.keysResolve (w : World) (k : Nat) : Bool :=
+  (w.cacheOf k).all (fun e => (lookupRow (w.pr k) e.1).isSome)
+
+/-- another stream holds the same row objects through a different indexer object (`link_with`) -/
+def World.rowsShared (w : World) (k : Nat) : Bool :=
+  (List.range w.nStr).any (fun j => (w.str j).imol != (w.str k).imol &&
+    (w.rows j).any (fun r => (w.rows k).contains r))
+
+/-- stream `j` holds a row object of stream `k` but belongs to another property package
+(`copy_like` / `mix_from` then take the by-CAS path, which empties the shared rows before reading them) -/
+def World.foreignShare (w : World) (k j : Nat) : Bool :=
+  (w.str j).thermo != (w.str k).thermo && (w.rows j).any (fun r => (w.rows k).contains r)
+
+/-- another stream of the universe is the same indexer object (a proxy) -/
+def World.aliased (w : World) (k : Nat) : Bool :=
+  (List.range w.nStr).any (fun j => j != k && (w.str j).imol == (w.str k).imol)
+
+/-- a cached key (of the stream or of a proxy of it) that is only a case-alias now would become a phase of its own -/
+def World.aliasKeyClash (w : World) (k : Nat) (more : List Ph) : Bool :=
+  (List.range w.nStr).any (fun j => (w.str j).imol == (w.str k).imol &&
+    (w.cacheOf j).any (fun e => !(w.phases k).contains e.1 && more.contains e.1))
+
+/-! ### conversions of stream `k` -/
+
+/-- (label, values, non-empty?) of every row of the indexer of stream `k`. -/
+def World.sources (w : World) (k : Nat) : List (Ph × (Nat → Rat) × Bool) :=
+  (w.pr k).map (fun x => (x.1, w.row x.2, !w.isEmptyRow x.2))
+
+/-- The values of the rows of a rebuilt indexer: row `q` receives every non-empty source row whose
 destination is `q`. -/
 def moveVals (srcs : List (Ph × (Nat → Rat) × Bool)) (target : List Ph) : List (Nat → Rat) :=
   target.map (fun q i => (srcs.map (fun s => if s.2.2 && dest target s.1 == some q then s.2.1 i else 0)).sum)
 
 /-- Conversion to a multi-phase representation over the (sorted) phase tuple `target`:
 `ChemicalIndexer.to_material_indexer` (from a `Stream`, whose `_streams` becomes a fresh dict) or
-`MaterialIndexer.to_material_indexer` (from a `MultiStream`, whose cached views are rebound to the new
-rows, those without a row dropped — patch C12-1).  Raises `UndefinedPhase`, changing nothing
-(patch C12-3), when some non-empty phase has no place in `target`. -/
-def World.toMulti (w : World) (target : List Ph) : Except Err World :=
-  let srcs := w.sources
+`MaterialIndexer.to_material_indexer` (from a `MultiStream`, whose cached views are re-seated on the new
+rows, those without a row dropped).  Raises `UndefinedPhase`, changing nothing, when some non-empty phase
+has no place in `target`. -/
+def World.toMulti (w : World) (k : Nat) (target : List Ph) : Except Err World :=
+  let srcs := w.sources k
   if srcs.all (fun s => !s.2.2 || (dest target s.1).isSome) then
     let (w1, ids) := w.allocRows (moveVals srcs target)
-    let pr' := target.zip ids
-    if w.s.multi then
-      let cached := w.s.cache.map (·.2)
-      .ok { w1 with
-        view := fun v => if cached.contains v then
-                           match lookupRow pr' (w.view v).phase with
-                           | some r => { w.view v with row := r }
-                           | none => w.view v
-                         else w.view v,
-        s := { w.s with pr := pr', cache := w.s.cache.filter (fun c => (lookupRow pr' c.1).isSome) } }
+    let (w2, i) := w1.allocImol (target.zip ids)
+    if (w.str k).multi then
+      .ok ((w2.setStr k { w.str k with imol := i }).rebind k false)
     else
-      .ok { w1 with s := { w.s with multi := true, pr := pr', cache := [] } }
+      let (w3, c) := w2.allocCache
+      .ok (w3.setStr k { w.str k with multi := true, imol := i, cache := c })
   else .error .undefinedPhase
 
-/-- The unpatched `MultiStream.phases` setter (for the counterexample only): the cache is left alone. -/
-def World.toMultiLegacy (w : World) (target : List Ph) : Except Err World :=
-  let srcs := w.sources
+/-- The `MultiStream.phases` setter before commit bab44aa (for the counterexample only): the views are left alone. -/
+def World.toMultiLegacy (w : World) (k : Nat) (target : List Ph) : Except Err World :=
+  let srcs := w.sources k
   if srcs.all (fun s => !s.2.2 || (dest target s.1).isSome) then
     let (w1, ids) := w.allocRows (moveVals srcs target)
-    .ok { w1 with s := { w.s with multi := true, pr := target.zip ids } }
+    let (w2, i) := w1.allocImol (target.zip ids)
+    .ok (w2.setStr k { w.str k with multi := true, imol := i })
   else .error .undefinedPhase
 
-/-- `MultiStream.phase = q` (one letter): `to_chemical_indexer` sums the rows into a fresh row. -/
-def World.toSingle (w : World) (q : Ph) : World :=
-  let vals := w.s.pr.map (fun x => w.row x.2)
+/-- `MultiStream.phase = q` (one letter): `to_chemical_indexer` sums the rows into a fresh row of a fresh
+indexer; `_streams.clear()`. -/
+def World.toSingle (w : World) (k : Nat) (q : Ph) : World :=
+  let vals := (w.pr k).map (fun x => w.row x.2)
   let (w1, ids) := w.allocRows [fun i => (vals.map (fun v => v i)).sum]
-  { w1 with s := { w.s with multi := false, pr := [(q, ids.headD 0)], cache := [] } }
+  let (w2, i) := w1.allocImol [(q, ids.headD 0)]
+  (w2.setCache (w.str k).cache []).setStr k { w.str k with multi := false, imol := i }
 
-/-- `Stream.phase = q` on a single-phase stream: the label changes, the row object stays. -/
-def World.relabel (w : World) (q : Ph) : World :=
-  { w with s := { w.s with pr := w.s.pr.map (fun x => (q, x.2)) } }
+/-- `Stream.phase = q` on a single-phase stream: the `Phase` object of the indexer is relabelled in place. -/
+def World.relabel (w : World) (k : Nat) (q : Ph) : World :=
+  w.setIpr (w.str k).imol ((w.pr k).map (fun x => (q, x.2)))
 
 /-- `stream.phases = ps` (either class). -/
-def World.setPhases (w : World) (ps : List Ph) : Except Err World :=
+def World.setPhases (w : World) (k : Nat) (ps : List Ph) : Except Err World :=
   let t := phaseTuple ps
   match t with
   | [] => .error .valueError                    -- empty phase sets are outside the model
-  | [q] => if w.s.multi then .ok (w.toSingle q) else .ok (w.relabel q)
-  | _ => if w.s.multi && t == w.s.phases then .ok w else w.toMulti t
+  | [q] => if (w.str k).multi then .ok (w.toSingle k q) else .ok (w.relabel k q)
+  | _ => if (w.str k).multi && t == w.phases k then .ok w else w.toMulti k t
 
 /-- `stream.phase = letters`. -/
-def World.setPhase (w : World) (letters : List Ph) : Except Err World :=
-  if w.s.multi then
+def World.setPhase (w : World) (k : Nat) (letters : List Ph) : Except Err World :=
+  if (w.str k).multi then
     match letters with
-    | [] => .ok (w.toSingle .l)
-    | [q] => .ok (w.toSingle q)
-    | _ => w.setPhases letters
+    | [] => .ok (w.toSingle k .l)
+    | [q] => .ok (w.toSingle k q)
+    | _ => w.setPhases k letters
   else
     match letters with
-    | [q] => .ok (w.relabel q)
+    | [q] => .ok (w.relabel k q)
     | _ => .error .runtimeError                 -- `check_phase`
 
 /-- `MultiStream.phase` (getter): one lower-case letter per non-empty group g, l/L, s/S. -/
-def World.phaseString (w : World) : List Ph :=
+def World.phaseString (w : World) (k : Nat) : List Ph :=
   let nonEmptyGroup (grp : List Ph) : Bool :=
-    w.s.pr.any (fun x => grp.contains x.1 && !w.isEmptyRow x.2)
+    (w.pr k).any (fun x => grp.contains x.1 && !w.isEmptyRow x.2)
   (if nonEmptyGroup [.g] then [Ph.g] else []) ++
   (if nonEmptyGroup [.l, .L] then [Ph.l] else []) ++
   (if nonEmptyGroup [.s, .S] then [Ph.s] else [])
 
-def World.reduce (w : World) : Except Err World :=
-  if w.s.multi then w.setPhase w.phaseString else .ok w
+def World.reduce (w : World) (k : Nat) : Except Err World :=
+  if (w.str k).multi then w.setPhase k (w.phaseString k) else .ok w
 
-def World.asStream (w : World) : Except Err World :=
-  if w.s.multi then
-    match w.phaseString with
-    | [q] => w.setPhase [q]
-    | [] => w.setPhase [(w.s.phases.headD .l)]
+def World.asStream (w : World) (k : Nat) : Except Err World :=
+  if (w.str k).multi then
+    match w.phaseString k with
+    | [q] => w.setPhase k [q]
+    | [] => w.setPhase k [((w.phases k).headD .l)]
     | _ => .error .runtimeError
   else .ok w
 
 /-- The phase-set extension done by the `vle` / `lle` / `sle` accessors (`a`, `b` = the two phases the
-solver needs, `keep` = single-phase labels that are not relabelled to `'l'` first). -/
-def World.accessor (w : World) (a b : Ph) (relabelFrom : Ph → Bool) : Except Err World :=
-  if w.s.multi then
-    if w.s.phases.contains a && w.s.phases.contains b then .ok w
-    else w.setPhases (w.s.phases ++ [a, b])
+solver needs, `relabelFrom` = single-phase labels that are relabelled to `'l'` first). -/
+def World.accessor (w : World) (k : Nat) (a b : Ph) (relabelFrom : Ph → Bool) : Except Err World :=
+  if (w.str k).multi then
+    if (w.phases k).contains a && (w.phases k).contains b then .ok w
+    else w.setPhases k (w.phases k ++ [a, b])
   else
-    let w1 := match w.s.phases with
-      | [p] => if relabelFrom p then w.relabel .l else w
+    let w1 := match w.phases k with
+      | [p] => if relabelFrom p then w.relabel k .l else w
       | _ => w
-    w1.setPhases [a, b]
+    w1.setPhases k [a, b]
 
-def World.vle (w : World) : Except Err World := w.accessor .l .g (fun p => p == .s)
-def World.lle (w : World) : Except Err World := w.accessor .l .L (fun p => !(p == .l || p == .L))
-/-- with patch C12-4 (`'S'` is not relabelled to `'l'`) -/
-def World.sle (w : World) : Except Err World := w.accessor .s .l (fun p => !(p == .l || p == .s || p == .S))
+def World.vle (w : World) (k : Nat) : Except Err World := w.accessor k .l .g (fun p => p == .s)
+def World.lle (w : World) (k : Nat) : Except Err World := w.accessor k .l .L (fun p => !(p == .l || p == .L))
+def World.sle (w : World) (k : Nat) : Except Err World :=
+  w.accessor k .s .l (fun p => !(p == .l || p == .s || p == .S))
 
 /-- `stream.empty()`: every row cleared in place. -/
-def World.emptyRows (w : World) : World :=
-  { w with row := fun r => if w.s.rows.contains r then fun _ => 0 else w.row r }
+def World.emptyRows (w : World) (k : Nat) : World :=
+  { w with row := fun r => if (w.rows k).contains r then fun _ => 0 else w.row r }
 
 /-- `stream[p]`. -/
-def World.getView (w : World) (p : Ph) : Except Err World :=
-  if w.s.multi then
-    if w.s.cache.any (fun c => c.1 == p) then .ok w
-    else match lookupRow w.s.pr p with
+def World.getView (w : World) (k : Nat) (p : Ph) : Except Err World :=
+  if (w.str k).multi then
+    if (w.cacheOf k).any (fun c => c.1 == p) then .ok w
+    else match lookupRow (w.pr k) p with
       | some r =>
-        .ok { w with view := fun v => if v = w.nView then { row := r, tc := w.s.tc, phase := p } else w.view v,
+        .ok { w with view := fun v => if v = w.nView then { row := r, tc := (w.str k).tc, phase := p } else w.view v,
                      nView := w.nView + 1,
-                     s := { w.s with cache := w.s.cache ++ [(p, w.nView)] } }
+                     cache := fun c => if c = (w.str k).cache then w.cache c ++ [(p, w.nView)] else w.cache c }
       | none => .error .undefinedPhase
   else
-    match w.s.phases with
+    match w.phases k with
     | [q] => if q == p || q.flip == some p then .ok w else .error .attributeError
     | _ => .error .attributeError
 
@@ -252,18 +334,18 @@ def World.writeView (w : World) (h i : Nat) (x : Rat) : Except Err World :=
   if h < w.nView then .ok (w.writeRow (w.view h).row i x) else .error .indexError
 
 /-- `stream.imol[p, chem_i] = x` (multi) / `stream.imol[chem_i] = x` (single). -/
-def World.writePar (w : World) (p : Option Ph) (i : Nat) (x : Rat) : Except Err World :=
-  if w.s.multi then
+def World.writePar (w : World) (k : Nat) (p : Option Ph) (i : Nat) (x : Rat) : Except Err World :=
+  if (w.str k).multi then
     match p with
     | none => .error .indexError
     | some p =>
-      match lookupRow w.s.pr p with
+      match lookupRow (w.pr k) p with
       | some r => .ok (w.writeRow r i x)
       | none => .error .undefinedPhase
   else
     match p with
     | some _ => .error .undefinedChemicalAlias
-    | none => .ok (w.writeRow (w.s.rows.headD 0) i x)
+    | none => .ok (w.writeRow ((w.rows k).headD 0) i x)
 
 def World.setT (w : World) (tc : Nat) (x : Rat) : World :=
   { w with T := fun t => if t = tc then x else w.T t }
@@ -271,35 +353,179 @@ def World.setP (w : World) (tc : Nat) (x : Rat) : World :=
   { w with P := fun t => if t = tc then x else w.P t }
 
 /-- `get_data`. -/
-def World.snapshot (w : World) : Snap :=
-  { phases := w.s.phases, vals := w.s.pr.map (fun x => w.row x.2), T := w.T w.s.tc, P := w.P w.s.tc }
+def World.snapshot (w : World) (k : Nat) : Snap :=
+  { phases := w.phases k, vals := (w.pr k).map (fun x => w.row x.2),
+    T := w.T (w.str k).tc, P := w.P (w.str k).tc }
 
-def World.save (w : World) : World := { w with snaps := w.snaps ++ [w.snapshot] }
+def World.save (w : World) (k : Nat) : World := { w with snaps := w.snaps ++ [w.snapshot k] }
 
-/-- `indexer.copy_like(snapshot indexer)`: values written into the existing row objects, pairwise. -/
-def World.copyRows (w : World) (vals : List (Nat → Rat)) : World :=
-  let tgt := w.s.rows.zip vals
+/-- `indexer.copy_like(other indexer)` over the same phases: values written into the existing row objects,
+pairwise (all values are read before any is written). -/
+def World.copyRows (w : World) (k : Nat) (vals : List (Nat → Rat)) : World :=
+  let tgt := (w.rows k).zip vals
   { w with row := fun r => match tgt.find? (fun x => x.1 == r) with
                            | some x => x.2
                            | none => w.row r }
 
-/-- `set_data` (patch C12-2: the current material is dropped first). -/
-def World.restore (w : World) (k : Nat) : Except Err World :=
-  match w.snaps[k]? with
+/-- `set_data`. -/
+def World.restore (w : World) (k : Nat) (idx : Nat) : Except Err World :=
+  match w.snaps[idx]? with
   | none => .error .indexError
   | some d => do
-    let w1 := w.emptyRows
-    let w2 ← w1.setPhases d.phases
-    let w3 := w2.copyRows d.vals
-    .ok ((w3.setT w3.s.tc d.T).setP w3.s.tc d.P)
+    let w1 := w.emptyRows k
+    let w2 ← w1.setPhases k d.phases
+    let w3 := w2.copyRows k d.vals
+    .ok ((w3.setT (w3.str k).tc d.T).setP (w3.str k).tc d.P)
+
+/-! ### operations that re-seat or grow the flow data -/
+
+/-- `stream.unlink()`: its own copy of the indexer (fresh row objects with the same values) and of the
+thermal condition; cached views re-seated on both. -/
+def World.unlink (w : World) (k : Nat) : Except Err World :=
+  if !w.keysResolve k || (!(w.str k).multi && !(w.cacheOf k).isEmpty) then .error .outOfModel else
+  let (w1, ids) := w.allocRows ((w.pr k).map (fun x => w.row x.2))
+  let (w2, i) := w1.allocImol ((w.phases k).zip ids)
+  let (w3, t) := w2.allocTc (w.T (w.str k).tc) (w.P (w.str k).tc)
+  let w4 := w3.setStr k { w.str k with imol := i, tc := t }
+  .ok (if (w.str k).multi then w4.rebind k true else w4)
+
+/-- the view re-seating of `link_with` (commit d9738d9): every cached view takes the stream's thermal condition
+and, when the flows were linked and its key has a row, that row -/
+def World.rebindLink (w : World) (k : Nat) (flow : Bool) : World :=
+  let s := w.str k
+  let pr := w.pr k
+  let cached := (w.cacheOf k).map (·.2)
+  { w with
+    view := fun v => if cached.contains v then
+                       { row := if flow then (match lookupRow pr (w.view v).phase with
+                                              | some r => r | none => (w.view v).row) else (w.view v).row,
+                         tc := s.tc, phase := (w.view v).phase }
+                     else w.view v }
+
+/-- `a.link_with(b, flow, TP)` between two MultiStreams (over the same phase tuple when `flow`; a stream that
+has a proxy, and single-phase streams, are outside the model; the class mismatch raises):
+`a._imol.data = b._imol.data`, `a._thermal_condition = b._thermal_condition`, cached views re-seated. -/
+def World.link (w : World) (k j : Nat) (flow tp : Bool) : Except Err World :=
+  if (w.str k).multi != (w.str j).multi then .error .runtimeError
+  else if !(w.str k).multi || (flow && !(w.phases k == w.phases j)) || w.aliased k then .error .outOfModel
+  else
+    let w1 := if flow then w.setIpr (w.str k).imol (w.pr j) else w
+    let w2 := if tp then w1.setStr k { w1.str k with tc := (w.str j).tc } else w1
+    .ok (if flow || tp then w2.rebindLink k flow else w2)
+
+/-- `link_with` as it is in the code (for the counterexample only): the views are left alone. -/
+def World.linkLegacy (w : World) (k j : Nat) (flow tp : Bool) : World :=
+  let w1 := if flow then w.setIpr (w.str k).imol (w.pr j) else w
+  if tp then w1.setStr k { w1.str k with tc := (w.str j).tc } else w1
+
+/-- `MaterialIndexer._expand_phases`: the indexer of stream `k` gets a fresh empty row for every phase of
+`more` it does not have under that exact label; the existing row objects stay. -/
+def World.expand (w : World) (k : Nat) (more : List Ph) : World :=
+  let new := Ph.all.filter (fun p => more.contains p && !(w.phases k).contains p)
+  if new.isEmpty then w else
+  let (w1, ids) := w.allocRows (new.map (fun _ _ => 0))
+  let all := w.pr k ++ new.zip ids
+  w1.setIpr (w.str k).imol (Ph.all.filterMap (fun p => all.find? (fun x => x.1 == p)))
+
+/-- rows of an indexer by destination, as `MaterialIndexer.copy_like` / `mix_from` write them:
+row `q` of `pr` receives the sum of the listed `(label, values)` whose destination in the labels of `pr` is `q` -/
+def gathered (labels : List Ph) (srcs : List (Ph × (Nat → Rat))) (q : Ph) (i : Nat) : Rat :=
+  (srcs.map (fun s => if dest labels s.1 == some q then s.2 i else 0)).sum
+
+/-- write `vals q` into the row object of every phase `q` of stream `k` (values were read beforehand) -/
+def World.writeByPhase (w : World) (k : Nat) (vals : Ph → Nat → Rat) : World :=
+  let pr := w.pr k
+  { w with row := fun r => match pr.find? (fun x => x.2 == r) with
+                           | some x => vals x.1
+                           | none => w.row r }
+
+/-- `''.join(p.lower() for p in phases)` -/
+def compat (a b : List Ph) : Bool := a.map Ph.lower == b.map Ph.lower
+
+/-- does `MaterialIndexer.copy_like` have to grow the phases of stream `k` to take stream `j`? -/
+def World.copyNeed (w : World) (k j : Nat) : Bool :=
+  if (w.str j).multi then !(w.phases k == w.phases j) && !compat (w.phases k) (w.phases j)
+  else (w.phases j).any (fun p => (lookupRow (w.pr k) p).isNone)
+
+/-- `self.P = min(P of the non-empty inlets)` when there are two or more of them -/
+def World.mixP (w : World) (k : Nat) (live : List Nat) : World :=
+  if live.length ≥ 2 then
+    w.setP (w.str k).tc ((live.map (fun j => w.P (w.str j).tc)).foldl min (w.P (w.str (live.headD 0)).tc))
+  else w
+
+/-- `a.copy_like(b)`. -/
+def World.copyLike (w : World) (k j : Nat) : Except Err World :=
+  let sj := w.str j
+  let srcs : List (Ph × (Nat → Rat)) := (w.pr j).map (fun x => (x.1, w.row x.2))
+  let Tj := w.T sj.tc
+  let Pj := w.P sj.tc
+  let finish (w' : World) : World := (w'.setT (w'.str k).tc Tj).setP (w'.str k).tc Pj
+  if (w.str k).imol = sj.imol then .ok (finish w)       -- `if self is other: return`
+  else if (w.str k).multi then
+    -- `MaterialIndexer.copy_like`
+    let need : Bool := w.copyNeed k j
+    if (need && (w.rowsShared k || w.aliasKeyClash k (w.phases j))) || w.foreignShare k j then .error .outOfModel else
+    let w1 := if need then w.expand k (w.phases j) else w
+    let labels := w1.phases k
+    .ok (finish (w1.writeByPhase k (gathered labels srcs)))
+  else if sj.multi then
+    -- `Stream.copy_like` from a MultiStream: becomes a MultiStream over the phases of `b`
+    let (w1, ids) := w.allocRows (srcs.map (·.2))
+    let (w2, i) := w1.allocImol ((w.phases j).zip ids)
+    let (w3, c) := w2.allocCache
+    .ok (finish (w3.setStr k { w.str k with multi := true, imol := i, cache := c }))
+  else
+    -- `ChemicalIndexer.copy_like`: values and phase
+    match w.pr j with
+    | [(q, _)] => .ok (finish ((w.relabel k q).copyRows k (srcs.map (·.2))))
+    | _ => .error .outOfModel
+
+/-- `a.mix_from(inlets, energy_balance=False)`. -/
+def World.mixFrom (w : World) (k : Nat) (inlets : List Nat) : Except Err World :=
+  let live := inlets.filter (fun j => !(w.pr j).all (fun x => w.isEmptyRow x.2))   -- `not i.isempty()`
+  match live with
+  | [] => .ok (w.emptyRows k)
+  | _ =>
+    let srcs : List (Ph × (Nat → Rat)) := live.flatMap (fun j => (w.pr j).map (fun x => (x.1, w.row x.2)))
+    let wP := w.mixP k live
+    if (w.str k).multi then
+      let other := phaseTuple (srcs.map (·.1))
+      let need := other.any (fun p => (lookupRow (w.pr k) p).isNone)
+      if (need && (w.rowsShared k || w.aliasKeyClash k other)) || live.any (w.foreignShare k) then .error .outOfModel else
+      let w1 := if need then wP.expand k other else wP
+      .ok (w1.writeByPhase k (gathered (w1.phases k) srcs))
+    else
+      -- `ChemicalIndexer.mix_from`: everything into the one row; `set_main_phase`
+      let total : Nat → Rat := fun i => (srcs.map (fun s => s.2 i)).sum
+      let allSingle := live.all (fun j => !(w.str j).multi)
+      if live.any (w.foreignShare k) then .error .outOfModel else
+      let w1 := match srcs with
+        | (q, _) :: rest => if allSingle && rest.all (fun s => s.1 == q) then wP.relabel k q else wP
+        | [] => wP
+      .ok (w1.copyRows k [total])
+
+/-- `stream._reset_thermo(thermo)` to another property package with the same chemicals in the same order:
+`reset_chemicals` gives the indexer fresh row objects holding the same values; cached views re-seated. -/
+def World.resetThermo (w : World) (k : Nat) (t : Nat) : Except Err World :=
+  if (w.str k).thermo = t then .ok w
+  else if w.aliased k || !w.keysResolve k || (!(w.str k).multi && !(w.cacheOf k).isEmpty) then .error .outOfModel else
+  let (w1, ids) := w.allocRows ((w.pr k).map (fun x => w.row x.2))
+  let w2 := (w1.setIpr (w.str k).imol ((w.phases k).zip ids)).setStr k { w.str k with thermo := t }
+  .ok (if (w.str k).multi then w2.rebind k false else w2)
+
+/-- `b = a.proxy()`: a new stream object with the same indexer and thermal condition and (commit db10e94) its
+own `_streams` dict. -/
+def World.proxy (w : World) (k : Nat) : Except Err World :=
+  let (w1, c) := w.allocCache
+  .ok { w1.setStr w.nStr { w.str k with cache := c } with nStr := w.nStr + 1 }
 
 /-- A fresh single-phase `Stream`. -/
 def World.newSingle (w : World) (p : Ph) (T P : Rat) (f : Nat → Rat) : World :=
   let (w1, ids) := w.allocRows [f]
-  { w1 with T := fun t => if t = w.nTc then T else w.T t,
-            P := fun t => if t = w.nTc then P else w.P t,
-            nTc := w.nTc + 1,
-            s := { multi := false, pr := [(p, ids.headD 0)], tc := w.nTc, cache := [] } }
+  let (w2, i) := w1.allocImol [(p, ids.headD 0)]
+  let (w3, t) := w2.allocTc T P
+  let (w4, c) := w3.allocCache
+  { w4.setStr w.nStr { multi := false, imol := i, tc := t, cache := c, thermo := 0 } with nStr := w.nStr + 1 }
 
 /-- A fresh `MultiStream` over `phaseTuple phases` (at least two). -/
 def World.newMulti (w : World) (phases : List Ph) (T P : Rat) (flows : List (Ph × (Nat → Rat))) : World :=
@@ -307,52 +533,85 @@ def World.newMulti (w : World) (phases : List Ph) (T P : Rat) (flows : List (Ph 
   let vals := t.map (fun q => match flows.find? (fun x => x.1 == q) with
                               | some x => x.2 | none => fun _ => 0)
   let (w1, ids) := w.allocRows vals
-  { w1 with T := fun t => if t = w.nTc then T else w.T t,
-            P := fun t => if t = w.nTc then P else w.P t,
-            nTc := w.nTc + 1,
-            s := { multi := true, pr := t.zip ids, tc := w.nTc, cache := [] } }
+  let (w2, i) := w1.allocImol (t.zip ids)
+  let (w3, tc) := w2.allocTc T P
+  let (w4, c) := w3.allocCache
+  { w4.setStr w.nStr { multi := true, imol := i, tc := tc, cache := c, thermo := 0 } with nStr := w.nStr + 1 }
 
 inductive Op where
   | newS (p : Ph) (T P : Rat) (f : Nat → Rat)
   | newM (phases : List Ph) (T P : Rat) (flows : List (Ph × (Nat → Rat)))
-  | setPhases (ps : List Ph)
-  | setPhase (letters : List Ph)
-  | reduce | asStream | vle | lle | sle
-  | empty
-  | view (p : Ph)
+  | setPhases (k : Nat) (ps : List Ph)
+  | setPhase (k : Nat) (letters : List Ph)
+  | reduce (k : Nat) | asStream (k : Nat) | vle (k : Nat) | lle (k : Nat) | sle (k : Nat)
+  | empty (k : Nat)
+  | view (k : Nat) (p : Ph)
   | wView (h i : Nat) (x : Rat)
-  | wPar (p : Option Ph) (i : Nat) (x : Rat)
-  | wT (x : Rat) | wP (x : Rat)
+  | wPar (k : Nat) (p : Option Ph) (i : Nat) (x : Rat)
+  | wT (k : Nat) (x : Rat) | wP (k : Nat) (x : Rat)
   | wvT (h : Nat) (x : Rat) | wvP (h : Nat) (x : Rat)
   | vPhase (h : Nat) (p : Ph)
-  | save
-  | restore (k : Nat)
+  | save (k : Nat)
+  | restore (k : Nat) (idx : Nat)
+  | unlink (k : Nat)
+  | link (k j : Nat) (flow tp : Bool)
+  | copyLike (k j : Nat)
+  | mixFrom (k : Nat) (inlets : List Nat)
+  | resetThermo (k : Nat) (t : Nat)
+  | proxy (k : Nat)
 
-/-- One operation.  An error leaves the world as it was. -/
-def World.step (w : World) : Op → Except Err World
+/-- the stream an operation acts on -/
+def Op.target : Op → Option Nat
+  | .setPhases k _ | .setPhase k _ | .reduce k | .asStream k | .vle k | .lle k | .sle k | .empty k
+  | .view k _ | .wPar k .. | .wT k _ | .wP k _ | .save k | .restore k _ | .unlink k | .link k ..
+  | .copyLike k _ | .mixFrom k _ | .resetThermo k _ | .proxy k => some k
+  | _ => none
+
+/-- the other streams an operation reads -/
+def Op.reads : Op → List Nat
+  | .link _ j .. | .copyLike _ j => [j]
+  | .mixFrom _ js => js
+  | _ => []
+
+/-- the streams an operation names exist -/
+def Op.inBounds (op : Op) (n : Nat) : Bool :=
+  (match op.target with | some k => decide (k < n) | none => true) && op.reads.all (fun j => decide (j < n))
+
+/-- One operation on existing streams. -/
+def World.body (w : World) : Op → Except Err World
   | .newS p T P f => .ok (w.newSingle p T P f)
   | .newM ps T P fl => if 2 ≤ (phaseTuple ps).length then .ok (w.newMulti ps T P fl) else .error .valueError
-  | .setPhases ps => w.setPhases ps
-  | .setPhase ls => w.setPhase ls
-  | .reduce => w.reduce
-  | .asStream => w.asStream
-  | .vle => w.vle
-  | .lle => w.lle
-  | .sle => w.sle
-  | .empty => .ok w.emptyRows
-  | .view p => w.getView p
+  | .setPhases k ps => w.setPhases k ps
+  | .setPhase k ls => w.setPhase k ls
+  | .reduce k => w.reduce k
+  | .asStream k => w.asStream k
+  | .vle k => w.vle k
+  | .lle k => w.lle k
+  | .sle k => w.sle k
+  | .empty k => .ok (w.emptyRows k)
+  | .view k p => w.getView k p
   | .wView h i x => w.writeView h i x
-  | .wPar p i x => w.writePar p i x
-  | .wT x => .ok (w.setT w.s.tc x)
-  | .wP x => .ok (w.setP w.s.tc x)
+  | .wPar k p i x => w.writePar k p i x
+  | .wT k x => .ok (w.setT (w.str k).tc x)
+  | .wP k x => .ok (w.setP (w.str k).tc x)
   | .wvT h x => if h < w.nView then .ok (w.setT (w.view h).tc x) else .error .indexError
   | .wvP h x => if h < w.nView then .ok (w.setP (w.view h).tc x) else .error .indexError
   | .vPhase h p =>
     -- `handle.phase = p`: the phase of a view is a `LockedPhase`
     if h < w.nView then (if (w.view h).phase == p then .ok w else .error .attributeError)
     else .error .indexError
-  | .save => .ok w.save
-  | .restore k => w.restore k
+  | .save k => .ok (w.save k)
+  | .restore k idx => w.restore k idx
+  | .unlink k => w.unlink k
+  | .link k j flow tp => w.link k j flow tp
+  | .copyLike k j => w.copyLike k j
+  | .mixFrom k js => w.mixFrom k js
+  | .resetThermo k t => w.resetThermo k t
+  | .proxy k => w.proxy k
+
+/-- One operation.  An error leaves the world as it was. -/
+def World.step (w : World) (op : Op) : Except Err World :=
+  if op.inBounds w.nStr then w.body op else .error .indexError
 
 /-- One operation of a history: a raising operation changes nothing. -/
 def World.apply (w : World) (op : Op) : World :=
@@ -366,19 +625,23 @@ def World.run (w : World) : List Op → World
 
 /-- The operations that only change the representation of phases. -/
 def Op.isConversion : Op → Bool
-  | .setPhases _ | .setPhase _ | .reduce | .asStream | .vle | .lle | .sle => true
+  | .setPhases .. | .setPhase .. | .reduce _ | .asStream _ | .vle _ | .lle _ | .sle _ => true
   | _ => false
 
-/-! ### Observables -/
+def Op.isProxy : Op → Bool
+  | .proxy _ => true
+  | _ => false
+
+/-! ### Observables of stream `k` -/
 
 /-- total flow of chemical `i` -/
-def World.total (w : World) (i : Nat) : Rat := (w.s.pr.map (fun x => w.row x.2 i)).sum
+def World.total (w : World) (k : Nat) (i : Nat) : Rat := ((w.pr k).map (fun x => w.row x.2 i)).sum
 
 /-- flow of chemical `i` in the phase labelled `q` (0 when the stream has no such phase) -/
-def World.rowAt (w : World) (q : Ph) (i : Nat) : Rat :=
-  ((w.s.pr.filter (fun x => x.1 == q)).map (fun x => w.row x.2 i)).sum
+def World.rowAt (w : World) (k : Nat) (q : Ph) (i : Nat) : Rat :=
+  (((w.pr k).filter (fun x => x.1 == q)).map (fun x => w.row x.2 i)).sum
 
-def World.temp (w : World) : Rat := w.T w.s.tc
-def World.pres (w : World) : Rat := w.P w.s.tc
+def World.temp (w : World) (k : Nat) : Rat := w.T (w.str k).tc
+def World.pres (w : World) (k : Nat) : Rat := w.P (w.str k).tc
 
 end ThermoVerif.Phases
